@@ -626,9 +626,16 @@ class Daemon(object):
             # the exception object couldn't be serialized, use a generic PyroError instead
             xt, xv, tb = sys.exc_info()
             msg = "Error serializing exception: %s. Original exception: %s: %s" % (str(xv), type(exc_value), str(exc_value))
+            # (the texts may be what the serializer choked on, e.g. a lone surrogate: keep the replacement encodable)
+            msg = msg.encode("ascii", "backslashreplace").decode("ascii")
             exc_value = errors.PyroError(msg)
             exc_value._pyroTraceback = tbinfo
-            data = serializer.dumps(exc_value)
+            try:
+                data = serializer.dumps(exc_value)
+            except Exception:
+                # the traceback text cannot be encoded either: report the error without it
+                exc_value._pyroTraceback = None
+                data = serializer.dumps(exc_value)
         flags |= protocol.FLAGS_EXCEPTION
         annotations = dict(annotations or {})
         annotations.update(self.annotations())
